@@ -1,5 +1,6 @@
 import ElfiVerif.Drive.C15
 import ElfiVerif.Drive.C13
+import ElfiVerif.Drive.C01
 
 /-!
 Line-protocol driver: one JSON request per line on stdin (`{"op": "<Cxx.name>", …}`), one JSON answer
@@ -9,7 +10,8 @@ per line on stdout (`{"ok": …}` or `{"error": "…"}`).  Run with
 open Lean ElfiVerif.Drive
 
 def allHandlers : List (String × H) :=
-  ElfiVerif.Drive.C15.handlers ++ ElfiVerif.Drive.C13.handlers
+  ElfiVerif.Drive.C15.handlers ++ ElfiVerif.Drive.C13.handlers ++
+  ElfiVerif.Drive.C01.handlers
 
 def handleLine (line : String) : String :=
   match Json.parse line with
